@@ -7,7 +7,8 @@
    wf_event ev : each key at most once, event name and id without CR/LF, id without
                  NUL, retry >= 0; the data text is ANY list of code points. *)
 From Coq Require Import List NArith ZArith.
-From Baize Require Import Lib.Wire C19.Model C19.Proofs.
+From Baize Require Import Lib.Wire C19.Model C19.Proofs C19.Compose.
+From Baize Require C06.Model.
 Import ListNotations.
 Local Open Scope N_scope.
 
@@ -100,6 +101,30 @@ Theorem splitlines_refuted_unicode :
             [mkMessage (lit "message") (normalise_newlines d) []].
 Proof. exact orig_refuted_unicode_proof. Qed.
 
+(* Together with C06's transition systems (W: the WSGI event-stream response with its relay thread, E: the
+   ASGI one with relay task, disconnect watcher and ping timer): in EVERY reachable state — every producer,
+   every interleaving of producer, relay, consumer and timer, every close / disconnect point — the bytes
+   handed to the server so far ([wire]: each chunk of C06 rendered by build_bytes_from_sse / as the ping
+   comment) decode, by the WHATWG interpretation, to exactly the events 0 .. d-1 the producer yielded, in
+   order, none lost, none twice; pings are invisible; d never exceeds what was produced.  [ev k] is the
+   k-th event the user's generator yields (any well-formed events). *)
+Theorem stream_decodes_to_prefix : forall (prod : C06.Model.producer) (ev : nat -> event),
+  (forall k, wf_event (ev k)) ->
+  (forall s, C06.Model.reachable (C06.Model.stepW true prod) C06.Model.w_init s ->
+     exists d : nat, (d <= C06.Model.nexts (C06.Model.wg s))%nat /\
+       messages (interpret (wire ev (C06.Model.wout s))) = deliveries [] (map (fun k => Ev (ev k)) (seq 0%nat d))) /\
+  (forall s, C06.Model.reachable (C06.Model.stepE prod) C06.Model.e_init s ->
+     exists d : nat, (d <= C06.Model.nexts (C06.Model.e_g s))%nat /\
+       messages (interpret (wire ev (C06.Model.e_out s))) = deliveries [] (map (fun k => Ev (ev k)) (seq 0%nat d))).
+Proof. exact stream_decodes_to_prefix_proof. Qed.
+
+(* non-vacuity: two events around a ping and the final body decode to the two messages *)
+Example stream_decodes_example :
+  let ev := fun k : nat => [Id (Lib.Wire.dec (N.of_nat k)); Data (lit "x")] in
+  messages (interpret (wire ev [C06.Model.ChItem 0; C06.Model.ChPing; C06.Model.ChItem 1; C06.Model.ChFinal]))
+  = deliveries [] [Ev (ev 0%nat); Ev (ev 1%nat)].
+Proof. vm_compute. reflexivity. Qed.
+
 Print Assumptions sse_roundtrip.
 Print Assumptions sse_roundtrip_messages.
 Print Assumptions sse_data_any_text.
@@ -109,3 +134,4 @@ Print Assumptions sequence_in_order.
 Print Assumptions sequence_messages.
 Print Assumptions splitlines_refuted.
 Print Assumptions splitlines_refuted_unicode.
+Print Assumptions stream_decodes_to_prefix.
